@@ -46,7 +46,8 @@ ViewS(s) == [set |-> [s.api.set EXCEPT !.rv = 0], pods |-> NoUid(s.api.pods),
 
 ActOf(a) == IF a.act = "SetSlots" THEN [a EXCEPT !.slots = AsSet(a.slots)] ELSE a
 \* a reconcile step is judged with the fault positions as recorded with the reconcile (canonical call order)
-FaultsOfArr(arr) == [k \in 1..Len(arr) |-> [k |-> arr[k][1], kind |-> arr[k][2], applied |-> arr[k][3], die |-> arr[k][4], list |-> arr[k][5]]]
+FaultsOfArr(arr) == [k \in 1..Len(arr) |-> [k |-> arr[k][1], kind |-> arr[k][2], applied |-> arr[k][3], die |-> arr[k][4], list |-> arr[k][5],
+                                           evict |-> IF Len(arr[k]) >= 6 THEN arr[k][6] ELSE ""]]
 ActAt(k) == LET a == ActOf(R.steps[k].act) IN
             IF a.act = "Reconcile" /\ R.steps[k].enabled THEN [act |-> "Reconcile", faults |-> FaultsOfArr(R.steps[k].faults)] ELSE a
 
